@@ -130,7 +130,7 @@ def generate(G):
         ("convsquare_b2", "ConvSquare", [L([2, 1, 2, 2], "D2"), L([1, 1, 2, 1], "D2")], "Explicit(Dom::D2)", "thorough", 20, (), False),
         ("muladdshare_start_tracking", "MulAddShare", [G.leaf_st([2]), L([2])], "Explicit(Dom::D4)", "thorough", 6, (), False),
         ("muladdshare_2x1x2_2x2x2", "MulAddShare", [L([2, 1, 2], "D2"), L([2, 2, 2], "D2", tracked=False)], "Explicit(Dom::D2)", "quick", 14, (), False),
-        ("convsquare_1x1x3", "ConvSquare", [L([1, 1, 3]), L([1, 1, 1, 2])], "Explicit(Dom::D4)", "quick", 10, (), False),
+        ("convsquare_1x1x3", "ConvSquare", [L([1, 1, 3]), L([1, 1, 1, 2])], "Explicit(Dom::D4)", "thorough", 10, (), False),
         ("diamond_2x2", "Diamond", [L([2, 2], "D2"), L([2, 2], "D2")], "Explicit(Dom::D4)", "thorough", 8, (), False),
         ("fan3_3", "Fan3", [L([3]), L([3])], "Explicit(Dom::D4)", "thorough", 6, (), False),
         ("bcastshare_2x2x2_2x2", "BcastShare", [L([2, 2, 2], "D2"), L([2, 2], "D2")], "Explicit(Dom::D2)", "thorough", 12, (), False),
